@@ -16,7 +16,6 @@
      4 base64.CorruptInputError  5 anything else (X25519 errors). *)
 From WK Require Import Base.Base Gen.Consts_C25.
 From Coq Require Export PrimInt63.
-From Coq Require Uint63.
 Open Scope N_scope.
 
 Inductive res (A : Type) : Type := Ok (a : A) | Err (e : N).
@@ -431,8 +430,8 @@ Inductive c25_op :=
 
 Record c25_case := C25Case {
   c25_ops : list c25_op;
-  c25_tabE : list (bytes * list (bytes * bytes));  (* (key, [(block, AES-encrypt)]) *)
-  c25_tabD : list (bytes * list (bytes * bytes));  (* (key, [(block, AES-decrypt)]) *)
+  c25_tabE : list (bytes * bytes);  (* (key, block0 ‖ AES-encrypt block0 ‖ block1 ‖ ...) *)
+  c25_tabD : list (bytes * bytes);  (* (key, block0 ‖ AES-decrypt block0 ‖ block1 ‖ ...) *)
   c25_tabMD5 : list (bytes * bytes);            (* (message, digest) *)
   c25_tabDH : list (bytes * bytes * option bytes) (* ((scalar, point), X25519) *)
 }.
@@ -448,16 +447,33 @@ Fixpoint lookup1 {B} (tab : list (bytes * B)) (a : bytes) (dflt : B) : B :=
   | (a', v) :: r => if bytes_eqb a a' then v else lookup1 r a dflt
   end.
 
-Definition lookup_block (tab : list (bytes * list (bytes * bytes))) (key block : bytes) : bytes :=
-  lookup1 (lookup1 tab key []) block [].
+(* packed (block, image) pairs of 16 + 16 bytes *)
+Fixpoint lookup_packed (fuel : nat) (blob block : bytes) : bytes :=
+  match fuel with
+  | O => []
+  | S f => match blob with
+           | [] => []
+           | _ => if bytes_eqb (firstn 16 blob) block then firstn 16 (skipn 16 blob)
+                  else lookup_packed f (skipn 32 blob) block
+           end
+  end.
+Definition lookup_block (tab : list (bytes * bytes)) (key block : bytes) : bytes :=
+  let blob := lookup1 tab key [] in lookup_packed (length blob) blob block.
 
 (* byte-string literal of case files: [pk len words], 7 bytes per primitive 63-bit integer,
-   little-endian (string / hex literals are two orders of magnitude slower to elaborate) *)
-Definition word_bytes (w : Uint63.int) : bytes :=
-  let z := Z.to_N (Uint63.to_Z w) in
-  [N.land z 255; N.land (N.shiftr z 8) 255; N.land (N.shiftr z 16) 255; N.land (N.shiftr z 24) 255;
-   N.land (N.shiftr z 32) 255; N.land (N.shiftr z 40) 255; N.land (N.shiftr z 48) 255].
-Definition pk (len : N) (ws : list Uint63.int) : bytes :=
+   little-endian (string / hex literals are two orders of magnitude slower to elaborate).
+   Only the primitives of PrimInt63 are used, so that case files do not load Uint63. *)
+Definition word_bit (w sh : int) (v : N) : N :=
+  if PrimInt63.eqb (PrimInt63.land (PrimInt63.lsr w sh) 1%uint63) 0%uint63 then 0 else v.
+Definition word_byte (w sh : int) : N :=
+  word_bit w sh 1 + word_bit w (PrimInt63.add sh 1%uint63) 2 + word_bit w (PrimInt63.add sh 2%uint63) 4
+  + word_bit w (PrimInt63.add sh 3%uint63) 8 + word_bit w (PrimInt63.add sh 4%uint63) 16
+  + word_bit w (PrimInt63.add sh 5%uint63) 32 + word_bit w (PrimInt63.add sh 6%uint63) 64
+  + word_bit w (PrimInt63.add sh 7%uint63) 128.
+Definition word_bytes (w : int) : bytes :=
+  [word_byte w 0%uint63; word_byte w 8%uint63; word_byte w 16%uint63; word_byte w 24%uint63;
+   word_byte w 32%uint63; word_byte w 40%uint63; word_byte w 48%uint63].
+Definition pk (len : N) (ws : list int) : bytes :=
   firstn (N.to_nat len) (flat_map word_bytes ws).
 
 Definition res_eqb {A} (eqb : A -> A -> bool) (x y : res A) : bool :=
@@ -543,10 +559,11 @@ Definition C25_mismatch (c : c25_case) : bool :=
 
 (* ---- the property, on the implementation's observations alone --------------------------- *)
 
-(* the session the server-side helpers read holds exactly the client's keys *)
+(* the session the server-side helpers read holds exactly the client's keys (a stored
+   *SessionCrypto always comes from a successful NewSessionCrypto) *)
 Definition sess_consistent (keys : session_keys) (s : sess) : bool :=
   match s_crypto s with
-  | Some k => keys_eqb k keys
+  | Some k => keys_eqb k keys && is_ok (NewSessionCrypto k)
   | None =>
     match s_key s, s_iv s with
     | Some k, Some iv => bytes_eqb k (AESKey keys) && bytes_eqb iv (AESIV keys)
